@@ -107,6 +107,19 @@ PROPS = {
   'essential_classes': ['expect:OK', 'expect:single-violation', 'expect:multi-violation', 'not-computable', 'violated:INT-1', 'violated:INT-2', 'violated:INT-3', 'violated:INT-4', 'violated:INT-5', 'violated:INT-5-shape-impossible',
                         'violated:INT-6', 'violated:INT-7', 'violated:INT-8', 'violated:INT-9', 'violated:INT-10', 'violated:INT-11', 'violated:INT-12', 'violated:INT-13', 'violated:INT-14', 'violated:INT-15', 'violated:INT-17'],
   'assumptions': ['reference evaluation reflects the KSI consistency conditions', 'byte-level mutations of the serialization are covered by C10/C12, not here'],
+ }, 'C02': {
+  'technique': 'property-based testing (rapidcheck) + exhaustive single-bit flips over reference-built signatures, oracle = the statement\'s deviation table',
+  'level_text': 'Reference-built consistent signatures (with and without RFC3161 record, first-link corrections 0..254) are verified with a document hash that is equal / one bit off / relabelled to '
+                'another algorithm / of another algorithm and length / random / absent, an input level from {0, <= L0, L0, L0+1, 255, 256, 2^32, 2^32+1, 2^64-1, random}, under each of the six verifying policies and through '
+                'five API variants (verifier with context, verifyWithPolicy with and without a caller context, verifyDataHash, verifyDocument). Any deviation must not be reported OK; single deviations must give FAIL GEN-01/04/03 '
+                '(level > 255: refusal); the matching input under the internal policy must be OK. All single-bit flips of several hashes are enumerated.',
+  'level_note': 'Trusted: ref/sigmodel.cpp builder. For the anchored policies without an anchor only the negative direction is decided here (document rules run first); their positive direction belongs to C04.',
+  'rule': 'rapidcheck choice strings -> (signature, hash deviation class, bit, level class, policy, API variant); exhaustive: every bit of the hash of 3 (5) signatures x 3 API variants. '
+          'Non-trivial = a hash deviation or a non-zero level; distinct = distinct (API, policy, deviation, bit bucket, level, L0, algorithm).',
+  'quick': {'cases': 12800, 'max_size': 200, 'exhaustive': True, 'wall_s': 900},
+  'thorough': {'cases': 256000, 'max_size': 300, 'exhaustive': True, 'wall_s': 3000},
+  'essential_classes': ['deviation:bit-flip', 'deviation:other-alg-same-digest', 'deviation:other-alg', 'deviation:level', 'deviation:level>255', 'deviation:combined', 'no-deviation', 'api:verifyWithPolicy+context', 'api:verifyDataHash', 'api:verifyDocument', 'policy:general', 'policy:key'],
+  'assumptions': ['reference builder produces consistent signatures (checked per case with the reference evaluation)'],
  },
 }
 
